@@ -119,8 +119,11 @@ def deref_att(op):
         assert b._is_eqn
         if b.op.symbol == "*":
             bis = "(,%{},{})".format(b.l, b.r)
-        else:
+        elif b.r._is_eqn:
             bis = "(%{},%{},{})".format(b.l, b.r.l, b.r.r)
+        else:
+            # index scaled by 1: (base + index)
+            bis = "(%{},%{},1)".format(b.l, b.r)
     s = "%s%s%s" % (seg, disp, bis)
     return [(Token.Memory, s)]
 
